@@ -605,6 +605,7 @@ func doParent(tier string, nworkers int, only string, d time.Duration, noEvid bo
 				"virtual timers fire by explorer choice, but only while some goroutine waits on them (a tick nobody can observe commutes with everything: sound reduction); durations are treated as arbitrary. Artifact excluded and counted under observations: the inventory service's NewTimer(time.Hour) firing before the Stop() in the next statement during set-up",
 				"'teardown was requested' = the manager received from its teardownch (observed through the channel model, vs.RecvCountNow, in the first block of the operation goroutine the manager spawned)",
 				"intermediate clause ('released THEN', i.e. not before teardown has finished): at the start and at the return of every Deploy / TeardownLease call the lease's reservation (inventoryService.reservationCount) and hostname (hostnameService.inUse) must still be present; read in place through in-package accessors, no channel round trip",
+				"hostnames: manifest v1 carries {www, api}, v2 drops api, v3 adds new; 'held while an operation is in flight' is demanded of the set the hostname service itself held at the manager's first operation (the unchanged manager never reserves hostnames of later manifests); after close + completed teardown EVERY hostname of every version must be reservable by another deployment",
 				"end-of-history clauses (teardown invoked after the last deploy, reservation and hostnames released, last deploy carries the latest manifest) are evaluated when shutdown is requested last with the system quiescent and no cluster call in flight, through Service.Status() and HostnameService().CanReserveHostnames(); histories cut by an earlier shutdown are checked for the safety clauses and termination only",
 				"scope: exempt from the teardown clause are ONLY histories in which a deploy failed before the manager accepted the teardown request (it has left its loop then and refuses the request; counted under coverage.observations as failed-deploy:no-teardown-request-accepted); a request accepted before or while a deploy is in flight must be followed by TeardownLease after that deploy finishes, ok or error",
 				"the hostname reservation answer is produced by the real hostnameService goroutine; 'lease closed before the answer' is reached as a scheduling/select choice, not as a menu event",
